@@ -42,9 +42,15 @@ def check_prims(rng, n=300):
             "# ALTERNATIVE NAME 3:", "# ALTERNATIVE NAME 12: a: b", "# ALTERNATIVE NAME x: y", " 12 ", "1_2", "+3", "-3"]
     for _ in range(n):
         strs.append("".join(rng.choice(alpha) for _ in range(rng.randint(0, 14))))
-    reps = run_driver([{"op": "io.prim", "s": t} for t in strs])
+    reqs = []
+    for t in strs:
+        reqs += [{"op": "io.prim", "s": t}, {"op": "io.prim", "s": "".join(t.split())},
+                 {"op": "io.prim", "s": t.strip()}]
+    allreps = run_driver(reqs)
     errs = []
-    for t, r in zip(strs, reps):
+    import io
+    for idx, t in enumerate(strs):
+        r, r2, r3 = allreps[3 * idx: 3 * idx + 3]
         digits_only = all((not ch.isdigit()) or ch in "0123456789" for ch in t)
         exp = {
             "strip": t.strip(), "removeWs": "".join(t.split()), "removeSpaces": t.replace(" ", ""),
@@ -52,7 +58,6 @@ def check_prims(rng, n=300):
             "splitColon": t.split(":"),
         }
         # universal-newline readlines
-        import io
         exp["readlines"] = io.TextIOWrapper(io.BytesIO(t.encode("utf-8")), encoding="utf-8", newline=None).readlines()
         for k, v in exp.items():
             if r[k] != v:
@@ -63,14 +68,12 @@ def check_prims(rng, n=300):
             errs.append(f"toNat({t!r}): lean {r['toNat']} python {py_int}")
         nows = "".join(t.split())
         if digits_only:
-            r2 = run_driver([{"op": "io.prim", "s": nows}])[0]
             if r2["scanOrder"] != py_scan(ORDER_RE, nows, False):
                 errs.append(f"scanOrder({nows!r}): lean {r2['scanOrder']} python {py_scan(ORDER_RE, nows, False)}")
             if r2["scanBallot"] != py_scan(CAT_RE, nows, True):
                 errs.append(f"scanBallot({nows!r}): lean {r2['scanBallot']} python {py_scan(CAT_RE, nows, True)}")
         line = t.strip()
         m = ALT_RE.match(line)
-        r3 = run_driver([{"op": "io.prim", "s": line}])[0]
         exp_m = [int(m.group(1)), m.group(2)] if m else None
         if r3["altName"] != exp_m:
             errs.append(f"altName({line!r}): lean {r3['altName']} python {exp_m}")
